@@ -88,6 +88,8 @@ class Scene:
 
         # Store unit system
         self._unit_sys = self._input_dict.get("units", "English")
+        if self._unit_sys not in ["English", "SI"]:
+            raise IOError("{0} is not an allowable unit system. Must be 'English' or 'SI'.".format(self._unit_sys))
 
         # Setup atmospheric property getter functions
         scene_dict = self._input_dict.get("scene", {})
